@@ -1,7 +1,7 @@
 ---------------------------- MODULE MC_HydFile ----------------------------
 EXTENDS HydFile
 \* Exhaustive model-checking harness for HydFile.
-CONSTANTS MaxWrites, MaxCalls, MaxCrash, MaxFault,
+CONSTANTS MaxWrites, MaxCalls, MaxCrash, MaxFault, Named,
           BadKeys      \* subset of Keys whose writes cannot be encoded (class "over_e")
 
 MCEntry(op, k, v) == [op |-> op, k |-> k, v |-> v, kc |-> IF k \in BadKeys THEN "over_e" ELSE "ok",
@@ -10,8 +10,8 @@ MCEntries == {MCEntry("ins", k, v) : k \in Keys, v \in Vals} \cup {MCEntry("del"
 
 \* every placement of block flushes: fl is chosen freely (covers every block-size configuration)
 MCNext ==
-  \/ cnt.writes < MaxWrites /\ \E e \in MCEntries, fl \in BOOLEAN : WriteEntry(e, fl)
-  \/ cnt.calls < MaxCalls /\ (Open \/ Sync \/ Close \/ CloseWedged)
+  \/ cnt.writes < MaxWrites /\ \E e \in MCEntries, fl \in BOOLEAN : WriteEntry(e, fl, TRUE)
+  \/ cnt.calls < MaxCalls /\ (Open(Named) \/ Sync \/ Close \/ CloseWedged)
   \/ FileStep
   \/ cnt.crashes < MaxCrash /\ \E tear \in {"none", "part"} : Crash(tear)
   \/ cnt.faults < MaxFault /\ \E mode \in {"err", "short"} : Fault(mode)
